@@ -22,6 +22,18 @@ FLOORS = {
     "thorough": dict({"distinct_nontrivial": 8000, "K1_evaluations": 15000},
                      **{f"nonempty[{d}]": 300 for d in DETECTORS}),
 }
+ANCHORS = [
+    "skchange.change_detectors.base.ChangeDetector._format_sparse_output",
+    "skchange.anomaly_detectors.base.CollectiveAnomalyDetector._format_sparse_output",
+    "skchange.anomaly_detectors.base.SubsetCollectiveAnomalyDetector._format_sparse_output",
+    "skchange.change_detectors.pelt.run_pelt",
+    "skchange.change_detectors.seeded_binseg.run_seeded_binseg",
+    "skchange.change_detectors.moving_window.get_moving_window_changepoints",
+    "skchange.anomaly_detectors.mvcapa.run_base_capa",
+    "skchange.anomaly_detectors.mvcapa.get_anomalies",
+    "skchange.anomaly_detectors.circular_binseg.run_circular_binseg",
+    "skchange.anomaly_detectors.anomalisers.StatThresholdAnomaliser._predict",
+]
 LEVEL = "exploration"
 RULE = (
     "detector zoo: 7 detectors x random boundary and interior configurations (thresholds/penalties "
